@@ -356,8 +356,10 @@ class SamplerCore:
             if self.config.blobs_dtype is not None:
                 dt = self.config.blobs_dtype
             else:
+                # The common dtype of the whole batch (an integer first blob must
+                # not truncate the float blobs of the other particles)
                 try:
-                    dt = np.atleast_1d(blob[0]).dtype
+                    dt = np.asarray(blob).dtype
                 except ValueError:
                     dt = np.dtype("object")
                 if dt.kind in "US":
